@@ -533,6 +533,117 @@ theorem pvd_select_labels_some (entries : List (Nat × Nat × φ)) (h : entries 
       rw [hf] at this; cases this
     | cons a t => simp [hf]
 
+/-! ## input handling, error branches -/
+
+/-- `_to_vector_format` accepts an array iff its size is a multiple of the number of cells / nodes -/
+theorem toVectorFormat_ok_iff (size ndofs : Nat) (h : ndofs ≠ 0) :
+    toVectorFormat size ndofs = .ok () ↔ size % ndofs = 0 := by
+  unfold toVectorFormat
+  simp only [h, and_false, if_false]
+  split <;> simp [*]
+
+theorem length_filterMap_id_lt (vals : List (Option β)) (h : none ∈ vals) :
+    (vals.filterMap id).length < vals.length := by
+  induction vals with
+  | nil => cases h
+  | cons a t ih =>
+    cases a with
+    | none =>
+      have := List.length_filterMap_le id t
+      simp only [List.filterMap_cons, id, List.length_cons]
+      omega
+    | some v =>
+      have hm : none ∈ t := by
+        rcases List.mem_cons.mp h with h | h
+        · cases h
+        · exact h
+      simp only [List.filterMap_cons, id, List.length_cons]
+      have := ih hm
+      omega
+
+/-- build_field_all: with data on every entity the field is the stacked data, in listing order -/
+theorem buildField_all (parts : List (List α)) (h : parts ≠ []) :
+    buildField (parts.map some) = .ok (some parts.flatten) := by
+  have e : (parts.map some).filterMap id = parts := by
+    induction parts with
+    | nil => rfl
+    | cons a t ih =>
+      simp only [List.map_cons, List.filterMap_cons, id]
+      cases t with
+      | nil => rfl
+      | cons b u => rw [ih (by simp)]
+  unfold buildField
+  simp only [e, List.length_map]
+  have : parts.length ≠ 0 := by
+    intro h0; exact h (List.length_eq_zero_iff.mp h0)
+  simp [this]
+
+/-- build_field_partial: data on some but not all entities of a dimension is rejected -/
+theorem buildField_partial (vals : List (Option (List α))) (v : List α)
+    (hsome : some v ∈ vals) (hnone : none ∈ vals) : buildField vals = .error "ValueError" := by
+  have hlt := length_filterMap_id_lt vals hnone
+  have hpos : (vals.filterMap id).length ≠ 0 := by
+    intro h0
+    have hm : v ∈ vals.filterMap id := List.mem_filterMap.mpr ⟨some v, hsome, rfl⟩
+    rw [List.length_eq_zero_iff.mp h0] at hm
+    cases hm
+  unfold buildField
+  simp only [hpos, if_false]
+  rw [if_neg (by omega)]
+
+theorem counterSteps_eq (c k : Nat) : counterSteps c k = List.range' c k := by
+  induction k generalizing c with
+  | zero => rfl
+  | succ k ih => simp [counterSteps, ih, List.range'_succ]
+
+/-- the input condition the driver evaluates is the hypothesis of `pvd_index_is_latest_step` -/
+theorem monoEntries_spec (entries : List (Nat × Nat × φ)) (h : monoEntries entries = true) :
+    ∀ e ∈ entries, ∀ e' ∈ entries, e.1 ≤ e'.1 → e.2.1 ≤ e'.2.1 := by
+  intro e he e' he' hle
+  unfold monoEntries at h
+  have := List.all_eq_true.mp (List.all_eq_true.mp h e he) e' he'
+  simp only [Bool.or_eq_true, Bool.not_eq_true', decide_eq_false_iff_not, decide_eq_true_eq] at this
+  rcases this with h1 | h1
+  · exact absurd hle h1
+  · exact h1
+
+theorem wellFormedLabel_spec (s : List Nat) (h : wellFormedLabel s = true) : ∃ N, s = renderF N :=
+  ⟨valueF s, by simpa [wellFormedLabel] using (beq_iff_eq.mp h).symm⟩
+
+/-- pvd_index_is_max_step: the returned index is an exported step and no exported step is larger -/
+theorem pvd_index_is_max_step (entries : List (Nat × Nat × φ)) (idx : Nat) (files : List φ)
+    (hmono : monoEntries entries = true)
+    (h : pvdSelectLabels (rendered entries) = some (idx, files)) :
+    (∃ e ∈ entries, e.2.1 = idx) ∧ ∀ e ∈ entries, e.2.1 ≤ idx := by
+  refine ⟨?_, pvd_index_is_latest_step entries idx files (monoEntries_spec entries hmono) h⟩
+  obtain ⟨M, _, _, _, hidx⟩ := pvd_selects_latest_labels entries idx files h
+  cases hf : entries.filter (fun e => e.1 == M) with
+  | nil => simp [hf] at hidx
+  | cons a t =>
+    simp only [hf, List.head?_cons, Option.map_some, Option.some.injEq] at hidx
+    have ha : a ∈ entries.filter (fun e => e.1 == M) := by rw [hf]; exact List.mem_cons_self
+    exact ⟨a, (List.mem_filter.mp ha).1, hidx⟩
+
+/-- restart_restores_latest: several time steps exported (any grids of the dimension, any data
+    fitting them), listed in a conventional pvd with "%f" labels; what `import_from_pvd` hands to
+    the importer and the importer returns is exactly the data written at the numerically latest
+    time - the clause "values written at the most recent time-step index, cell by cell". -/
+theorem restart_restores_latest (d : α) (dim : Nat) (gs : List GridInfo) (sides : List Nat)
+    (exports : List (Nat × Nat × List (List α))) (hs : gs.length ≤ sides.sum)
+    (hfit : ∀ e ∈ exports, e.2.2.map List.length = entitySizes sides (gs.map (·.ncells)))
+    (idx : Nat) (files : List (List (List α)))
+    (h : pvdSelectLabels (rendered (exports.map (fun e => (e.1, e.2.1, roundTrip d dim gs sides e.2.2))))
+      = some (idx, files)) :
+    ∃ M, (∀ e ∈ exports, e.1 ≤ M) ∧ files = (exports.filter (fun e => e.1 == M)).map (·.2.2) := by
+  obtain ⟨M, _, hmax, hfiles, _⟩ := pvd_selects_latest_labels _ idx files h
+  refine ⟨M, ?_, ?_⟩
+  · intro e he
+    exact hmax (e.1, e.2.1, roundTrip d dim gs sides e.2.2) (List.mem_map_of_mem (f := fun e => (e.1, e.2.1, roundTrip d dim gs sides e.2.2)) he)
+  · rw [hfiles, List.filter_map, List.map_map]
+    apply List.map_congr_left
+    intro e he
+    exact roundtrip_dim d dim gs sides e.2.2 hs (hfit e (List.mem_filter.mp he).1)
+
 /-! ## non-vacuity and regression witnesses -/
 
 /-- regression case F5 (corpus/C38/f5.json): quadrilateral, triangle, quadrilateral -/
@@ -601,6 +712,21 @@ example : resolveManual (.inl [2, 1]) (some (.inl [true, false])) 1 = some (1, f
 /-- point data of two entities and a length scale 1/2 -/
 example : importPointField [2, 1] (exportPointField [[(1 : Int), 2], [3]]) = [[1, 2], [3]] := by decide +kernel
 example : meshPoints (1 / 2) [[[1, 2, 0]], [[4, 0, 0]]] = [[1 / 2, 1, 0], [2, 0, 0]] := by decide +kernel
+
+/-- input handling: sizes, all-or-none data per dimension, the step counter -/
+example : toVectorFormat 6 3 = .ok () ∧ toVectorFormat 7 3 = .error "ValueError" := ⟨rfl, rfl⟩
+example : buildField [some [(1 : Int), 2], some [3]] = .ok (some [1, 2, 3]) := rfl
+example : buildField [some [(1 : Int), 2], none] = .error "ValueError" := rfl
+example : buildField ([none, none] : List (Option (List Int))) = .ok none := rfl
+example : counterSteps 0 3 = [0, 1, 2] := by decide +kernel
+example : monoEntries [(0, 0, "a"), (500000, 1, "b"), (1000000, 2, "c")] = true := by decide +kernel
+example : wellFormedLabel (renderF 10500000) = true ∧ wellFormedLabel [48, 49, 46, 48] = false := by decide +kernel
+/-- two exported steps of the F5 grid, labels 9.0 and 10.0: the restart gets the data of step 10 -/
+example : pvdSelectLabels (rendered ([(9000000, 9, [[(1 : Int), 2, 3]]), (10000000, 10, [[4, 5, 6]])].map
+    (fun e => (e.1, e.2.1, roundTrip 0 2 [gF5] [1] e.2.2)))) = some (10, [[[4, 5, 6]]]) := by decide +kernel
+/-- the mixin path over 11 steps with dt = 1: restart at index 10 with time 10 -/
+example : (mixinRestart ((List.range 11).map (fun i => (i * 1000000, (i : Int), (1 : Int))))).map
+    (fun r => (r.1, r.2.time, r.2.dt, r.2.expTimes.length)) = some (10, 10, 1, 10) := by decide +kernel
 
 /-- time information: two writes, then a restart at index 1 -/
 example : TM.load (fun (x : Int) => some x) ⟨0, 0, [], []⟩
